@@ -408,13 +408,9 @@ func (r *router) find(path string, paramsPointer *param.Params, unescape bool) (
 				i = len(search)
 			}
 			(*paramsPointer) = (*paramsPointer)[:(paramIndex + 1)]
-			val := search[:i]
-			if unescape {
-				if v, err := url.QueryUnescape(search[:i]); err == nil {
-					val = v
-				}
-			}
-			(*paramsPointer)[paramIndex].Value = val
+			// keep the raw text while searching: backtrackToNextNodeKind restores searchIndex by len(Value);
+			// the value is unescaped once the route is found
+			(*paramsPointer)[paramIndex].Value = search[:i]
 			paramIndex++
 			search = search[i:]
 			searchIndex = searchIndex + i
@@ -466,6 +462,16 @@ func (r *router) find(path string, paramsPointer *param.Params, unescape bool) (
 		res.fullPath = cn.ppath
 		for i, name := range cn.pnames {
 			(*paramsPointer)[i].Key = name
+		}
+		if unescape && res.handlers != nil {
+			for i := range *paramsPointer {
+				if cn.kind == akind && i == len(cn.pnames)-1 {
+					continue // the catch-all value was unescaped when it was stored
+				}
+				if v, err := url.QueryUnescape((*paramsPointer)[i].Value); err == nil {
+					(*paramsPointer)[i].Value = v
+				}
+			}
 		}
 	}
 
